@@ -71,6 +71,23 @@ mod h {
         skills_none_veh_none: false, false, true, 0;  skills_none_veh_empty: false, false, true, 1;  skills_none_veh_has: false, false, true, 2;
         skills_all_none_veh_has: true, false, true, 2; skills_all_one_veh_has: true, true, false, 2; skills_all_one_veh_empty: true, true, false, 1;
     }
+    /// two-skill instances (constants): distinguish "disjoint" from "not a subset", "some" from "all"
+    fn gate2(all_of: &[u8], one_of: &[u8], none_of: &[u8], veh: &[u8]) {
+        let l = |x: &[u8]| if x.is_empty() { None } else { Some(x.to_vec()) };
+        let job = Job { dimens: JobDimens { skills: Some(JobSkills::new(l(all_of), l(one_of), l(none_of))) } };
+        let rc = RouteContext { route: Route { actor: Arc::new(Actor { vehicle: Arc::new(Vehicle { dimens: VehicleDimens { skills: Some(veh.iter().cloned().collect()) } }) }) } };
+        let r = SkillsConstraint { code: ViolationCode(9) }.evaluate(&MoveContext::Route { solution_ctx: &SolutionContext {}, route_ctx: &rc, job: &job });
+        let has = |k: &u8| veh.contains(k);
+        let expected = all_of.iter().all(has) && (one_of.is_empty() || one_of.iter().any(has)) && !none_of.iter().any(has);
+        assert!(r.is_none() == expected, "post_skills_gate_accepts_iff_requirements_met");
+    }
+    #[kani::proof] #[kani::unwind(5)] fn skills2_none_of_partly_present() { gate2(&[], &[], &[0, 1], &[0]) }
+    #[kani::proof] #[kani::unwind(5)] fn skills2_none_of_absent() { gate2(&[], &[], &[1], &[0]) }
+    #[kani::proof] #[kani::unwind(5)] fn skills2_all_of_partly_present() { gate2(&[0, 1], &[], &[], &[0]) }
+    #[kani::proof] #[kani::unwind(5)] fn skills2_all_of_present() { gate2(&[0, 1], &[], &[], &[1, 0]) }
+    #[kani::proof] #[kani::unwind(5)] fn skills2_one_of_partly_present() { gate2(&[], &[0, 1], &[], &[1]) }
+    #[kani::proof] #[kani::unwind(5)] fn skills2_one_of_absent() { gate2(&[], &[0], &[], &[1]) }
+
     #[kani::proof] #[kani::unwind(4)]
     fn skills_no_requirements_always_pass() {
         let job = Job { dimens: JobDimens { skills: None } };
